@@ -113,6 +113,11 @@ def judge(cfg, name, args):
         res, prog = _judge(cfg, name, args, "inplace")
         if res is not None:
             res = (res[0], "augmented assignment: " + res[1])
+    if res is None:
+        # the user's global ignore_errors(True) (examples/sudoku.py): operations that are valid must give the same values
+        res, prog = _judge(cfg, name, args, "ignore")
+        if res is not None:
+            res = (res[0], "with ignore_errors(True): " + res[1])
     if res is None and len(args) == 2 and args[0][0] in "IBF" and list(args[0]) == list(args[1]):
         res, prog = _judge(cfg, name, args, "alias")
         if res is not None:
@@ -124,10 +129,12 @@ def _judge(cfg, name, args, variant):
     ts = "".join(a[0] for a in args)
     vals = [a[2][1] if isinstance(a[2], list) else a[2] for a in args]
     r, b = cfg["r"], cfg["b"]
-    prog = opgrid.single(cfg, name, args, inplace=variant == "inplace", alias=variant == "alias")
+    prog = opgrid.single(cfg, name, args, "ignore" if variant == "ignore" else "normal", inplace=variant == "inplace", alias=variant == "alias")
     m = ir.run_program(prog)
     exp = ref(name, ts, vals, r)
     n = len(args)
+    if variant == "ignore" and (exp is refsem.RAISES or not in_core(name, ts, vals, r, b)):
+        return None, prog        # with errors suppressed only the valid cases have a defined value
     if variant == "alias":
         n, args = 1, args[:1]
     if m.raised is not None:
@@ -375,7 +382,7 @@ def run(ctx):
     ctx.assumptions = ["Fraction-based reference of the documented fixed-point semantics", "recorder; representations compared modulo p"]
     cs = pairs()
     total = core.Stats()
-    grids = [(3, 16, "bn128")] if ctx.tier == "quick" else [(3, 16, "bn128"), (0, 8, "bls12-381"), (1, 16, "curve25519"), (5, 32, "bn128")]
+    grids = [(3, 16, "bn128"), (0, 8, "bls12-381")] if ctx.tier == "quick" else [(3, 16, "bn128"), (0, 8, "bls12-381"), (1, 16, "curve25519"), (5, 32, "bn128")]
     for r, b, p in grids:
         total.merge_json(core.run_shards("harness.checks.c14", "grid_shard", [dict(cells=cs[i::16], r=r, b=b, p=p) for i in range(16)]).to_json())
     n = 150 if ctx.tier == "quick" else 6000
